@@ -180,6 +180,8 @@ def cases(sh, tier):
                                  ([lab[0], D.ABSENT_BETWEEN[kind]], "label")):
                     yield {"ds": w, "op": ["take_axis", axarg, list(ix), mode], "dim": d}
                 ab, hi = D.ABSENT_BETWEEN[kind], D.ABSENT_ABOVE[kind]
+                yield {"ds": w, "op": ["take_axis", axarg, [i % 2 == 0 for i in range(len(lab))], "mask"], "dim": d}
+                yield {"ds": w, "op": ["take_axis", axarg, [False] * len(lab), "mask"], "dim": d}
                 for new in (list(lab), lab[::-1], lab[:1], list(lab) + [hi], [ab, lab[0]], []):
                     for fill in ("nan", -9):
                         yield {"ds": w, "op": ["reindex_axis", axarg, new, fill, False], "dim": d}
@@ -369,6 +371,10 @@ def _judge(ds, case):
         if op[0] == "sort_axis":
             f = lambda: ds.sort_axis(axis=axarg)
             g = lambda v: v.sort_axis(axis=d)
+        elif op[0] == "take_axis" and op[3] == "mask":
+            ix = np.array(op[2], dtype=bool)
+            f = lambda: ds.take_axis(ix, axis=axarg)
+            g = lambda v: v.take_axis(ix, axis=d)
         elif op[0] == "take_axis":
             ix = D.np_labels(op[2], kinds[d]) if op[3] == "label" else list(op[2])
             f = lambda: ds.take_axis(ix, axis=axarg, indexing=op[3])
